@@ -152,6 +152,27 @@ def c08_4(rep, ix):
             raise Inconclusive("exitStatement: wrapping loop `for ... in %s` not recognised" % it)
         slots[slot] = (st, l, var)
         rep.check(keyok, R, ix.site(f, st), "%s slot: the transform replaces the element it was computed from" % slot, key=slot + "|key")
+        # whether the arguments are looked at at all depends on nothing but their presence: a condition around the conversion loop that
+        # inspects the *text* of the statement (a register spelled out in the arguments, say) misses registers that arrive through a variable
+        from ..py.guards import path_to
+        for (stmts_, i_, fld_) in path_to(fn.body, l) or []:
+            s_ = stmts_[i_]
+            if isinstance(s_, ast.If) and fld_ == "body":
+                t_ = " ".join(u(s_.test).split())
+                def atom_p(node):
+                    if isinstance(node, ast.Name) and node.id in extracted:
+                        return ("x",)
+                    if " ".join(u(node).split()) in ("ctx.arguments()",):
+                        return "CTX"
+                    return AEval.NO
+                try:
+                    c_ = bool(AEval(atom_p).truth(AEval(atom_p).ev(s_.test)))
+                except Exception:
+                    c_ = None
+                if c_ is None and any(k_ in t_ for k_ in ("getText()", ".search(", ".match(", ".fullmatch(", ".findall(", " in str(")):
+                    rep.bad(R, ix.site(f, s_), "%s slot: every argument value is examined for measured registers" % slot,
+                            "the conversion loop runs only if `%s`: it looks at the text of the statement, and a register that reaches an argument through a declared variable is not in that text"
+                            % t_[:70], key=slot + "|text gate")
         v = st.value
         direct = u(v.func) == "RegRefTransform" and len(v.args) == 1 and u(v.args[0]) == var and not v.keywords
         rep.check(direct, R, ix.site(f, st), "%s slot: the stored value is RegRefTransform(<the element>) constructed at this point (not a cached or shared object)" % slot,
